@@ -437,12 +437,16 @@ def las_text(v):
 def through_read(run):
     import lasio
     for v in FILE_VALUES:
-        for lower in (False, True):
+        for lower, titles in ((False, "plain"), (True, "plain"), (False, "indented"), (False, "abbreviated")):
             txt = las_text(v)
             if lower:
                 txt = txt.replace("API .", "api .").replace("UWI.", "uWi.")
+            if titles == "indented":         # title lines with leading blanks / a TAB: the same sections, the same conversion rules
+                txt = txt.replace("~Well", "  ~Well").replace("~Curve", "\t~Curve").replace("~Parameter", " ~Parameter").replace("~MyCustom", "   ~MyCustom")
+            elif titles == "abbreviated":
+                txt = txt.replace("~Version", "~V").replace("~Well", "~w").replace("~Curve", "~C").replace("~Parameter", "~p")
             las = lasio.read(txt)
-            case = {"stream": "read", "value": v, "lower": lower}
+            case = {"stream": "read", "value": v, "lower": lower, "titles": titles}
             nontrivial = oracle(v)[0][0] != "str"
             run.case(case, nontrivial=nontrivial, tags=["read"])
             got = {
